@@ -41,11 +41,11 @@ type c15Spec struct {
 	ns              []int
 	mn, mx          [c15Dims]int64
 	// RAW shapes of the object (glue that the model decodes: Model/C15.lean Raw / decodeQI); zero values = canonical
-	parentShape                  int  // "parent = root" (or "" on the root-named object): 0 written out, 1 label absent, 2 label ""
-	ipShape, forceShape, rootShape int // spelling of a FALSE boolean label, see c15BoolCode
-	swShape                      int  // shared-weight annotation: 0 absent, 1 negative, 2 malformed JSON, 3 non-negative, 4 ""
-	nsShape                      int  // namespaces annotation: 0 canonical (absent when empty), 1 other spelling, 2 malformed (ns must be nil)
-	mnNil, mxNil                 bool // a key-less Spec.Min / Spec.Max is a nil map instead of an empty one
+	parentShape                    int  // "parent = root" (or "" on the root-named object): 0 written out, 1 label absent, 2 label ""
+	ipShape, forceShape, rootShape int  // spelling of a FALSE boolean label, see c15BoolCode
+	swShape                        int  // shared-weight annotation: 0 absent, 1 negative, 2 malformed JSON, 3 non-negative, 4 ""
+	nsShape                        int  // namespaces annotation: 0 canonical (absent when empty), 1 other spelling, 2 malformed (ns must be nil)
+	mnNil, mxNil                   bool // a key-less Spec.Min / Spec.Max is a nil map instead of an empty one
 }
 
 // label value codes of the op line: 0 "false", 1 "true", 2 label absent, 3 another string ("True")
@@ -601,6 +601,7 @@ type c15Gen struct {
 	flags    bool
 	big      bool // min amounts of the quota being generated are drawn from the larger set (parents)
 	maxNames int
+	deep     bool // deep stream: deeper trees, fuller parents
 }
 
 func (g *c15Gen) existing() []int {
@@ -614,6 +615,14 @@ func (g *c15Gen) existing() []int {
 
 func (g *c15Gen) amount(max bool) int64 {
 	r := g.r
+	if g.deep {
+		switch {
+		case max:
+			return r.Pick([]int64{20, 20, 30})
+		case g.big:
+			return r.Pick([]int64{4, 8, 10, 12, 16, 20})
+		}
+	}
 	if max {
 		return r.Pick([]int64{8, 8, 10, 20})
 	}
@@ -674,6 +683,24 @@ func (g *c15Gen) pickParent(self int) int {
 	if len(ps) == 0 {
 		return 0
 	}
+	if g.deep && r.Bool() { // the deepest candidate
+		best, bd := ps[0], -1
+		for _, n := range ps {
+			d, cur := 0, n
+			for cur != 0 && d < 10 {
+				if s, ok := g.store[cur]; ok {
+					cur = s.parent
+				} else {
+					break
+				}
+				d++
+			}
+			if d > bd && n != self {
+				best, bd = n, d
+			}
+		}
+		return best
+	}
 	return ps[r.Intn(len(ps))]
 }
 
@@ -696,6 +723,9 @@ func (g *c15Gen) nsList() []int {
 func (g *c15Gen) fresh(name int) *c15Spec {
 	r := g.r
 	sp := &c15Spec{name: name, parent: g.pickParent(-1), isParent: r.Chance(3, 5)}
+	if g.deep {
+		sp.isParent = r.Chance(4, 5)
+	}
 	g.big = sp.isParent && !r.Chance(1, 5)
 	sp.mn, sp.mx = g.vectors()
 	sp.ns = g.nsList()
@@ -842,7 +872,36 @@ func TestVerifC15(t *testing.T) {
 		if r == nil {
 			continue
 		}
-		g := &c15Gen{r: r, store: map[int]*c15Spec{}}
+		c15History(h, r, false)
+	}
+	h.Close("one history of 4-16 (thorough: up to 40) create/update/delete requests over <=6 names (incl. system/default), parents incl. self/descendants/unknown, " +
+		"is-parent flips, tree ids, namespaces, min/max over 3 dimensions (absent/0/small, rare negative / min>max / key mismatch), force/is-root labels in 1/8 histories, " +
+		"pod environment (incl. failing List) and raw spelling of labels/annotations/nil maps per request; non-trivial = >=3 accepted requests and final depth >=2; distinct by op lines")
+}
+
+// TestVerifC15Deep: the same history generator biased towards deep trees with full parents (min-sum, keys and tree-id
+// checks against parent AND children) and towards the bypass labels (state-based min-sum clause).
+func TestVerifC15Deep(t *testing.T) {
+	h := vOpen("C15")
+	if h == nil {
+		t.Skip("VERIF_OUT not set")
+	}
+	n := h.N(500, 15000)
+	for idx := 0; idx < n; idx++ {
+		r := h.Begin(idx)
+		if r == nil {
+			continue
+		}
+		c15History(h, r, true)
+	}
+	h.Close("deep stream: histories of 12-30 requests over <=7 names, 4/5 quotas marked is-parent, parents drawn preferably among the deepest recorded quotas, " +
+		"larger parent mins, force/is-root labels in 1/2 histories, tree ids in 1/2; non-trivial = >=3 accepted requests and final depth >=2")
+}
+
+// c15History runs one history (one case, already begun) against the real topology.
+func c15History(h *vHarness, r *vRand, deep bool) {
+	{
+		g := &c15Gen{r: r, store: map[int]*c15Spec{}, deep: deep}
 		// history-level choices
 		switch r.Intn(4) {
 		case 0:
@@ -861,6 +920,12 @@ func TestVerifC15(t *testing.T) {
 		steps := r.Range(4, 16)
 		if h.Tier == "thorough" && r.Chance(1, 5) {
 			steps = r.Range(15, 40)
+		}
+		if deep {
+			g.trees = r.Bool()
+			g.flags = r.Bool()
+			g.maxNames = r.Range(4, 7)
+			steps = r.Range(12, 30)
 		}
 		cl := &c15Client{}
 		qt := NewQuotaTopology(cl)
@@ -962,7 +1027,12 @@ func TestVerifC15(t *testing.T) {
 				} else if sp.nsShape == 2 {
 					sp.ns = nil // the annotation stays malformed
 				}
-				h.Tag(fmt.Sprintf("shape:ns%d:sw%d:parent%d", sp.nsShape, sp.swCode(), sp.parentCode()/98*sp.parentCode()))
+				h.Tag(fmt.Sprintf("shape:ns-annotation:%d", sp.nsShape))
+				h.Tag(fmt.Sprintf("shape:shared-weight:%d", sp.swCode()))
+				h.Tag(fmt.Sprintf("shape:is-parent-label:%d", sp.ipCode()))
+				if sp.parentCode() >= 98 {
+					h.Tag(fmt.Sprintf("shape:parent-label:%d", sp.parentCode()))
+				}
 				h.Op("%s", c15OpLine("upd", sp, cl))
 				obj := c15Object(sp)
 				var oldObj *v1alpha1.ElasticQuota
@@ -989,6 +1059,15 @@ func TestVerifC15(t *testing.T) {
 			ok := err == nil
 			h.Obs("res %d", vB(ok))
 			h.Tag(kind + ":" + c15ErrKind(err))
+			if kind == "upd" && old != nil && old.parent == sp.parent && old.isParent == sp.isParent && old.tree == sp.tree &&
+				fmt.Sprint(old.ns) == fmt.Sprint(sp.ns) && old.mn == sp.mn && old.mx == sp.mx {
+				if c15Object(old).Labels[extension.LabelQuotaParent] != c15Object(sp).Labels[extension.LabelQuotaParent] || old.ipCode() != sp.ipCode() ||
+					old.nsShape != sp.nsShape || (old.mnNil != sp.mnNil && sp.mn == [c15Dims]int64{c15Absent, c15Absent, c15Absent}) {
+					h.Tag("upd:same-content-other-spelling:" + c15ErrKind(err)) // the unchanged-fields shortcut compares raw strings
+				} else {
+					h.Tag("upd:unchanged-fields:" + c15ErrKind(err))
+				}
+			}
 			after := c15Snapshot(qt)
 			for _, l := range after.lines() {
 				h.Obs("%s", l)
@@ -1064,9 +1143,6 @@ func TestVerifC15(t *testing.T) {
 		}
 		h.End()
 	}
-	h.Close("one history of 4-16 (thorough: up to 40) create/update/delete requests over <=6 names (incl. system/default), parents incl. self/descendants/unknown, " +
-		"is-parent flips, tree ids, namespaces, min/max over 3 dimensions (absent/0/small, rare negative / min>max / key mismatch), force/is-root labels in 1/8 histories, " +
-		"pod environment per request; non-trivial = >=3 accepted requests and final depth >=2; distinct by op lines")
 }
 
 // ---- root-add stream (goal: decide the suspected defect excluded by NotRootAdd) ----
@@ -1101,7 +1177,7 @@ func TestVerifC15RootAdd(t *testing.T) {
 		mk := func(name, parent int, isParent bool, mn int64) *c15Spec {
 			return &c15Spec{name: name, parent: parent, isParent: isParent, mn: [c15Dims]int64{mn, c15Absent, c15Absent}, mx: [c15Dims]int64{20, c15Absent, c15Absent}}
 		}
-		var plan []*c15Spec // adds; name 0 = the root-named object
+		var plan []*c15Spec  // adds; name 0 = the root-named object
 		pre := r.Range(0, 3) // quotas hanging off the root before the root object is created
 		for i := 0; i < pre; i++ {
 			plan = append(plan, mk(3+i, 0, i == 0 || r.Bool(), int64(r.Range(4, 8))))
